@@ -71,7 +71,9 @@ class _Yielder(ast.NodeTransformer):
 
     def visit_With(self, node):
         # with <expr>:  ->  cooperative acquire, body, release  (only for a single lock-like item without `as`)
-        if len(node.items) != 1 or node.items[0].optional_vars is not None:
+        ce = node.items[0].context_expr if node.items else None
+        if len(node.items) != 1 or node.items[0].optional_vars is not None or \
+                not (isinstance(ce, ast.Attribute) and "lock" in ce.attr):
             node.body = self._block(node.body)
             return node
         self.n += 1
@@ -88,18 +90,21 @@ class _Yielder(ast.NodeTransformer):
         return out
 
 
-def stepper(func):
-    """generator version of `func` (same globals), yielding before each statement"""
+def stepper(func, cls_name: str | None = None):
+    """generator version of `func` (same globals), yielding before each statement;
+    `cls_name`: compile inside a class of that name so that `self.__x` is mangled as in the original"""
     f = getattr(func, "__func__", func)
     src = textwrap.dedent(inspect.getsource(f))
     tree = ast.parse(src)
     fn = tree.body[0]
     assert isinstance(fn, ast.FunctionDef)
     _Yielder().visit(fn)
+    if cls_name:
+        tree.body = [ast.ClassDef(cls_name, [], [], [fn], [])]
     ast.fix_missing_locations(tree)
     ns: dict = {}
     exec(compile(tree, f"<stepper {f.__qualname__}>", "exec"), f.__globals__, ns)
-    return ns[fn.name]
+    return ns[cls_name].__dict__[fn.name] if cls_name else ns[fn.name]
 
 
 class Thread:
